@@ -18,18 +18,28 @@ import gen_lock_audit
 from gens import threads as gt
 
 MANIFEST = dict(
-    technique="Lean 4 theorems over all schedules on a model of the instance registry and thread programs; generated lock-guard and "
+    technique="Lean 4 theorems over all schedules on a model of the instance registry and thread programs, and over all call "
+              "sequences on the settings model (id enters only rendered default names); generated lock-guard, lock-shape and "
               "writable-global audits proved by decide; bitwise differential runs of the real library (sequential, multi-process, "
-              "multi-thread, ThreadSanitizer)",
+              "multi-thread with overlapping lifetimes, nested on one thread, ThreadSanitizer) with a lock-balance monitor",
     text="Theorems (all schedules, all thread counts, all programs): schedule_projection, schedule_independence, "
-         "ids_unique_all_schedules; obligations over data regenerated from the current source: registry_accesses_guarded, "
-         "qsort_calls_guarded, globals_accounted_partial, no_nonreentrant_libc_calls. Correspondence: the registry model is "
-         "also checked against the C API in C13; here the isolation hypothesis of the model is tied to the code by the two "
-         "audits and by bit-for-bit comparison of sequential / multi-process / multi-thread / TSan executions.",
+         "ids_unique_all_schedules; (all call sequences) id_enters_only_default_file_names, default_names; obligations over "
+         "data regenerated from the current source: registry_accesses_guarded, qsort_calls_guarded, qsort_guard_is_one_statement, "
+         "globals_accounted_partial (strong AND weak object symbols in writable sections: function-local statics of inline/template "
+         "functions, static members, inline variables), policy_entries_have_reasons_and_are_live, init_only_tables_never_written "
+         "(source reading: no assignment / mutation / address-taking of any table the policy calls initialiser-only), "
+         "no_nonreentrant_libc_calls. Correspondence: the registry model is also checked against the C API in C13; here the "
+         "isolation hypothesis of the model is tied to the code by the audits and by bit-for-bit comparison of sequential / "
+         "multi-process / multi-thread / TSan executions of 17 calculation families plus concurrent loading of all 20 shipped "
+         "databases; nested single-thread interleavings through the BASIC callback; default-name jobs at two ids (names and files "
+         "written = SName.render of the model, all content identical); every pthread unlock of qsort_lock/map_lock preceded by a "
+         "lock of the same thread.",
     note="Partial: real pthread schedules, data races inside the engine and libc are runtime behaviour a model cannot exhibit; "
          "TSan samples schedules. The full statement 'no shared mutable state' is false on this tree (transport.cpp file-scope "
-         "variables, known finding transport-file-scope-globals); globals_accounted_partial proves everything else is accounted "
-         "for. Trusted: nm, g++ -E, the reviewed policy list Model/GlobalsPolicy.lean, ThreadSanitizer.")
+         "variables, known finding transport-file-scope-globals, now also shown deterministically: two multicomponent-diffusion "
+         "TRANSPORT runs of different instances nested on one thread kill the process); globals_accounted_partial proves "
+         "everything else is accounted for. Trusted: nm, g++ -E, the reviewed policy list Model/GlobalsPolicy.lean, ThreadSanitizer, "
+         "ld --wrap for the lock monitor.")
 
 KNOWN_SHARED = {"tk_x2", "dV_dcell", "find_current", "token", "dif_spec_names", "dif_els_names", "neg_moles", "els", "Ct2",
                 "l_tk_x2", "A", "LU", "mixf", "mixf_stag", "mixf_comp_size", "current_cells", "sum_R", "sum_Rd", "ct",
@@ -159,7 +169,9 @@ def explore(ctx, budget, tsan_budget, repeats, thread_counts, hist):
     nload = ctx.n(8, 20) if ctx.tier == "thorough" or budget < 100 else 20
     loads = gt.load_jobs(rng, nload)
     loads += gt.tiny_db_jobs(rng, 2)        # databases with 0 / 1 master species: `if (n > 1) qsort(...)` with n <= 1
-    strict = [j for j in jobs if j[0] not in TRANSPORT_FAMILIES] + loads
+    nf = len(gt.FAMILIES)
+    # every family once, then the database loads, then the rest: the TSan run takes a prefix of this list
+    strict = [j for j in jobs[:nf] if j[0] not in TRANSPORT_FAMILIES] + loads + [j for j in jobs[nf:] if j[0] not in TRANSPORT_FAMILIES]
     trans = [j for j in jobs if j[0] in TRANSPORT_FAMILIES] + gt.multi_d_jobs(rng, max(2, budget // 10))
     for j in strict + trans:
         hist["families"][j[0]] = hist["families"].get(j[0], 0) + 1
@@ -369,7 +381,7 @@ def run(ctx):
         ctx.finding("transport-file-scope-globals", "file-scope variables of transport.cpp shared by all instances: " + " ".join(shared),
                     {"symbols": shared})
     if ok:
-        ev, dn = explore(ctx, ctx.n(30, 200), ctx.n(20, 80), ctx.n(1, 3), ctx.n([8], [2, 4, 8, 16]), hist)
+        ev, dn = explore(ctx, ctx.n(30, 200), ctx.n(26, 100), ctx.n(1, 3), ctx.n([8], [2, 4, 8, 16]), hist)
     else:
         # proof obligation broken: search the real code for a concrete failing schedule/input at the thorough budget
         ev, dn = explore(ctx, 120, 60, 3, [4, 16], hist)
@@ -380,8 +392,11 @@ def run(ctx):
     ctx.cov.update(hist)
     ctx.cov["evaluations"] = ev
     ctx.cov["distinct_nontrivial"] = dn
-    ctx.cov["rule"] = ("jobs drawn from 10 calculation families (gens/threads.py) with random parameters; each job = fresh instance, "
-                       "LoadDatabase, RunString, all channels hashed; evaluations = job executions compared with the sequential "
+    ctx.cov["rule"] = ("jobs drawn from 17 calculation families (gens/threads.py) with random parameters + LoadDatabase of the shipped "
+                       "databases + databases with 0/1 master species; each job = fresh instance, LoadDatabase, RunString, all "
+                       "channels hashed; threads keep 0-3 finished instances with loaded databases alive (overlapping lifetimes); "
+                       "nested pairs: instance B's whole life inside a BASIC callback of instance A's run on one thread; default-name "
+                       "jobs at two id offsets in scratch directories; evaluations = job executions compared with the sequential "
                        "reference; distinct = distinct (family, output hash) pairs")
     ctx.assumptions += ["an operation on an instance reads and writes only that instance's state (discharged by the lock audit, the "
                         "writable-global audit and the differential/TSan runs, except for the transport.cpp variables of the known finding)",
